@@ -33,6 +33,7 @@ class Plan(object):
         self.randints = list(d.get('randints', []))
         self.isatty = d.get('isatty', False)
         self.uid = d.get('uid', 0)
+        self.pid = d.get('pid', 4242)                # os.getpid() answer (a real pid would defeat state merging)
         self.resolve = d.get('resolve', 'mut')       # which ops get entry paths: mut | all
         self.sched_fd = d.get('sched_fd')            # socket fd to the scheduler (E5)
         self.shared = d.get('shared', [])            # shared-zone prefixes (E5)
@@ -415,6 +416,7 @@ def install(plan, trace_fd):
     random.randint = randint
     os.getuid = lambda: plan.uid
     os.geteuid = lambda: plan.uid
+    os.getpid = lambda: plan.pid
     real_isatty = os.isatty
     os.isatty = lambda fd: bool(plan.isatty) if fd == 0 else real_isatty(fd)
     if not plan.hooks:
